@@ -175,6 +175,11 @@ func (e *Engine) runNative(rf *replayFile, replayPath string) (string, string) {
 				fmt.Println("REPLAY-RESULT: assume-failed")
 				return
 			}
+			if len(verifrt.Failures) > 0 {
+				// an assertion had already failed; what the harness did afterwards is irrelevant
+				fmt.Println("REPLAY-RESULT: assert-fail " + strings.Join(verifrt.Failures, ","))
+				return
+			}
 			fmt.Printf("REPLAY-RESULT: panic %v\n", r)
 			return
 		}
